@@ -41,7 +41,29 @@ def routes(text, tmpdir, tag, bom, crlf=False):
             with open(p, encoding='utf8') as fh:
                 return fn(fh, **kw)
         return run
-    return [
+    extra = []
+    if not bom and not crlf:
+        # the same text in a file of another encoding, opened by the caller with that encoding: an open text file is
+        # whatever its read() returns
+        for enc in ('utf-16', 'latin-1', 'cp1252', 'utf-8-sig'):
+            try:
+                data = text.encode(enc)
+                if data.decode(enc) != text:
+                    continue
+            except UnicodeError:
+                continue
+            pe = os.path.join(tmpdir, f'{tag}.{enc}.dbml')
+            with open(pe, 'wb') as f:
+                f.write(data)
+
+            def with_enc(fn, pe=pe, enc=enc):
+                def run(**kw):
+                    with open(pe, encoding=enc, newline='') as fh:
+                        return fn(fh, **kw)
+                return run
+            extra.append((f'PyDBML(file:{enc})', True, with_enc(lambda fh, **kw: PyDBML(fh, **kw))))
+            extra.append((f'parse_file(file:{enc})', False, with_enc(lambda fh, **kw: PyDBML.parse_file(fh))))
+    return extra + [
         ('PyDBML(str)', True, lambda **kw: PyDBML(s, **kw)),
         ('PyDBML(Path)', True, lambda **kw: PyDBML(Path(p), **kw)),
         ('PyDBML(file)', True, with_file(lambda fh, **kw: PyDBML(fh, **kw))),
@@ -109,6 +131,11 @@ def run_shard(spec, tier, seed, budget_s):
             if doc.project is not None:
                 doc.project.name = doc.project.name + rng.choice(['', 'A\u030a', '\u212a'])
             text = surface.render(doc, f'{seed}-{i}-{k}')
+            if rng.random() < 0.3:
+                # the whole document indented (every non-blank line): all routes still see the same text
+                ind = ' ' * rng.choice([1, 2, 4])
+                text = '\n'.join((ind + ln) if ln.strip() else ln for ln in text.split('\n'))
+                sh.count('obs.docs.indented')
             if rng.random() < 0.1:
                 text = ''    # empty document through every route
             nel = len(doc.tables) + len(doc.enums) + len(doc.refs)
@@ -128,9 +155,30 @@ def run_shard(spec, tier, seed, budget_s):
                             sh.count('obs.crlf_file_routes')
                         want = ref if takes else ref0
                         got, db = outcome(thunk, kw if takes else {})
-                        sh.count(f'obs.route.{name}.{"bom" if bom else "nobom"}')
+                        sh.count(f'obs.route.{name.split(":")[0] + (")" if ":" in name else "")}.{"bom" if bom else "nobom"}')
+                        if ':' in name:
+                            sh.count('obs.encoding.' + name.split(':')[1].rstrip(')'))
                         sh.count('obs.comparisons')
                         case = {'kind': 'route', 'text': text, 'route': name, 'bom': bom, 'options': optname}
+                        if db is not None and got == want and not kw and not bom and not crlf:
+                            # the caller edits what it got; the same route, asked again, gives a new database with the source's content
+                            try:
+                                for t_ in db.tables[:1]:
+                                    t_.name = 'EDITEDq'
+                                    t_.columns[0].name = 'EDITEDcq'
+                                for e_ in db.enums[:1]:
+                                    e_.name = 'EDITEDeq'
+                                from pydbml.classes import StickyNote as _SN
+                                db.add(_SN('EDITEDsq', 'edited'))
+                            except Exception:
+                                pass
+                            got2, db2 = outcome(thunk, {})
+                            sh.count('obs.repeat_after_edit')
+                            if db2 is db:
+                                sh.violation('route', f'repeat-returns-same-object:{name.split(":")[0]}', f'{name}: the second call returned the very database object of the first', case)
+                            elif got2 != want:
+                                sh.violation('route', f'repeat-after-edit-differs:{name.split(":")[0]}', f'{name}: second call after editing the first result: ' +
+                                             ('; '.join(am.diff(want[1], got2[1])[:3]) if got2[0] == 'OK' == want[0] else f'{got2[:2]} vs {want[:2]}'), case)
                         if got != want:
                             if got[0] != want[0]:
                                 detail = f'{got[:2] if got[0] != "OK" else "OK"} vs reference {want[:2] if want[0] != "OK" else "OK"}'
